@@ -909,7 +909,7 @@ func (c *Client) CallProgressive(ctx context.Context, procedure string, sendProg
 				if err != nil {
 					c.sess.Send() <- &wamp.Cancel{
 						Request: id,
-						Options: wamp.SetOption(nil, wamp.OptMode, wamp.CancelModeKillNoWait),
+						Options: wamp.SetOption(nil, wamp.OptMode, c.cancelMode),
 					}
 					return
 				}
@@ -936,7 +936,7 @@ func (c *Client) CallProgressive(ctx context.Context, procedure string, sendProg
 				if err := c.prepareCallPayloadMessage(message, options, args, kwargs); err != nil {
 					c.sess.Send() <- &wamp.Cancel{
 						Request: id,
-						Options: wamp.SetOption(nil, wamp.OptMode, wamp.CancelModeKillNoWait),
+						Options: wamp.SetOption(nil, wamp.OptMode, c.cancelMode),
 					}
 					return
 				}
